@@ -6,6 +6,7 @@ mod client;
 mod crash;
 mod dump;
 mod genresp;
+mod owned;
 mod parse;
 mod mockio;
 mod tags;
@@ -25,6 +26,7 @@ fn main() {
         "crash-child" => crash::child(),
         "crash-gen" => crash::gen(&args[2..]),
         "parse" => parse::main(&args[2..]),
+        "owned" => owned::main(&args[2..]),
         "builder" => builder::main(&args[2..]),
         "bodystruct" => bodystruct::main(&args[2..]),
         c => {
